@@ -14,7 +14,7 @@ open PdshVerif.Mod
 open PdshVerif.Gen.Fn.Mod
 
 /-- the C `struct stat` of a model stat record -/
-def toC (st : FStat) : stat := { (default : stat) with st_mode := st.mode, st_uid := st.uid }
+@[reducible] def toC (st : FStat) : stat := { (default : stat) with st_mode := st.mode, st_uid := st.uid }
 
 /-- BRIDGE `_dir_permission_error(st, alt_uid) == DIR_OK` ⇔ `dirOk uid alt_uid st`, for all modes and uids -/
 theorem dir_permission_error_bridge (uid owner : Nat) (st : FStat) :
@@ -28,14 +28,9 @@ theorem dir_permission_error_bridge (uid owner : Nat) (st : FStat) :
 /-- the function never has undefined behaviour and returns one of the four codes of `perm_error_t` -/
 theorem dir_permission_error_total (uid owner : Nat) (st : FStat) :
     ∃ r, _dir_permission_error uid (toC st) owner = some r ∧ r ≤ 3 := by
-  simp only [_dir_permission_error]
-  split
-  · exact ⟨1, rfl, by omega⟩
-  · split
-    · exact ⟨2, rfl, by omega⟩
-    · split
-      · exact ⟨3, rfl, by omega⟩
-      · exact ⟨0, rfl, by omega⟩
+  by_cases hd : st.mode &&& 61440 = 16384 <;> by_cases h0 : st.uid = 0 <;> by_cases h1 : st.uid = uid <;>
+    by_cases h2 : st.uid = owner <;> by_cases hw : st.mode &&& 2 = 0 <;> by_cases hs : st.mode &&& 512 = 0 <;>
+    simp [_dir_permission_error, toC, hd, h0, h1, h2, hw, hs]
 
 /-! ### the per-file tests of `_mod_load_dynamic_modules` (three `if` conditions INSIDE the readdir loop,
     translated as expressions: registry entries `mod_file_isreg`, `mod_file_owner`, `mod_file_mode`) -/
